@@ -693,8 +693,12 @@ Variable fmt_ok pat_ok : nat -> str -> bool.
 Variable E : env.
 Variable callG callS : nat -> value -> list viol.
 Hypothesis Hcall : forall id x, x <> VNull -> (callG id x = [] <-> callS id x = []).
-(* every Validate call goa elides is vacuous *)
-Hypothesis Helide : forall c id x, has_validations E c id = false -> callS id x = [].
+(* Pc: the contexts in which user types are met (kept by the descent into every child that
+   is not a primitive); every Validate call goa elides there is vacuous *)
+Variable Pc : ctx -> Prop.
+Hypothesis Helide : forall c id x, Pc c -> has_validations E c id = false -> callS id x = [].
+Hypothesis Pelem : forall c e, Pc c -> is_prim e = false -> Pc (elem_ctx c e).
+Hypothesis Pmap : forall c a, Pc c -> is_prim a = false -> Pc (map_ctx c a).
 
 Notation goa_viol := (goa_viol fmt_ok pat_ok E callG).
 Notation spec_viol := (spec_viol fmt_ok pat_ok E callS).
@@ -730,8 +734,22 @@ Proof.
 Qed.
 
 Definition Irel (a : att) : Prop :=
-  forall c rp v p, c_ignreq c = false -> wf_att E a = true -> excl_ok E a = true -> pm_ok rp a = true ->
+  forall c rp v p, c_ignreq c = false -> (no_user a = true \/ Pc c) ->
+    wf_att E a = true -> excl_ok E a = true -> pm_ok rp a = true ->
     (rp = true /\ v = VNull) \/ (goa_viol c a v p = [] <-> spec_viol a v p = []).
+
+Lemma prim_no_user a : is_prim a = true -> no_user a = true.
+Proof. destruct a; cbn; congruence. Qed.
+
+Lemma child_elem c e : (no_user e = true \/ Pc c) -> no_user e = true \/ Pc (elem_ctx c e).
+Proof.
+  intros [Hn|Hc]; [now left|]. destruct (is_prim e) eqn:Ep; [left; now apply prim_no_user|right; now apply Pelem].
+Qed.
+
+Lemma child_map c a : (no_user a = true \/ Pc c) -> no_user a = true \/ Pc (map_ctx c a).
+Proof.
+  intros [Hn|Hc]; [now left|]. destruct (is_prim a) eqn:Ep; [left; now apply prim_no_user|right; now apply Pmap].
+Qed.
 
 Lemma map_ctx_ignreq c a : c_ignreq (map_ctx c a) = c_ignreq c.
 Proof. unfold map_ctx. destruct map_ctx_mode; try destruct a; reflexivity. Qed.
@@ -741,22 +759,23 @@ Proof. unfold elem_ctx. destruct (c_ptr c && is_prim e); reflexivity. Qed.
 
 Lemma Irel_prim vl def pr : Irel (APrim vl def pr).
 Proof.
-  intros c rp v p _ _ He _. right. cbn [excl_ok] in He.
+  intros c rp v p _ _ _ He _. right. cbn [excl_ok] in He.
   destruct v; cbn [Model.goa_viol Model.spec_viol]; try rewrite (kws_goa_eq vl He); reflexivity.
 Qed.
 
 Lemma Irel_alias id : Irel (AAlias id).
 Proof.
-  intros c rp v p _ _ He _. right. cbn [excl_ok] in He. unfold alias_vl in *.
+  intros c rp v p _ _ _ He _. right. cbn [excl_ok] in He. unfold alias_vl in *.
   destruct v; cbn [Model.goa_viol Model.spec_viol]; unfold alias_vl; try rewrite (kws_goa_eq _ He); reflexivity.
 Qed.
 
-Lemma Irel_nonnull (P : Prop) : P -> (true = true /\ P) \/ False -> True.
+Lemma Irel_nonnull (X : Prop) : X -> (true = true /\ X) \/ False -> True.
 Proof. trivial. Qed.
 
 Lemma Irel_arr vl e : Irel e -> Irel (AArray vl e).
 Proof.
-  intros IH c rp v p Hi Hwf He Hpm. cbn [wf_att excl_ok pm_ok] in *.
+  intros IH c rp v p Hi HP Hwf He Hpm. cbn [wf_att excl_ok pm_ok no_user] in *.
+  apply child_elem in HP.
   apply andb_prop in Hwf. destruct Hwf as [Hok Hwe]. apply andb_prop in He. destruct He as [He1 He2].
   apply andb_prop in Hpm. destruct Hpm as [Hp1 Hp2].
   destruct v; try (right; cbn [Model.goa_viol Model.spec_viol]; rewrite (kws_goa_eq vl He1); reflexivity).
@@ -766,12 +785,16 @@ Proof.
   - right. cbn [Model.goa_viol Model.spec_viol]. rewrite (kws_goa_eq vl He1).
     apply app_nil_iff; [tauto|]. apply flat_map_nil_iff. intros x Hx.
     assert (Hi' : c_ignreq (elem_ctx c e) = false) by now rewrite elem_ctx_ignreq.
-    destruct (IH (elem_ctx c e) false x (p ++ [PElem]) Hi' Hwe He2 Hp2) as [[Hf _]|H]; [discriminate|exact H].
+    destruct (IH (elem_ctx c e) false x (p ++ [PElem]) Hi' HP Hwe He2 Hp2) as [[Hf _]|H]; [discriminate|exact H].
 Qed.
 
 Lemma Irel_map vl k e : Irel k -> Irel e -> Irel (AMap vl k e).
 Proof.
-  intros IHk IHe c rp v p Hi Hwf He Hpm. cbn [wf_att excl_ok pm_ok] in *.
+  intros IHk IHe c rp v p Hi HP Hwf He Hpm. cbn [wf_att excl_ok pm_ok no_user] in *.
+  assert (HPk : no_user k = true \/ Pc (map_ctx c k)).
+  { apply child_map. destruct HP as [Hn|Hc]; [left; now apply andb_prop in Hn|now right]. }
+  assert (HPe : no_user e = true \/ Pc (map_ctx c e)).
+  { apply child_map. destruct HP as [Hn|Hc]; [left; now apply andb_prop in Hn|now right]. }
   apply andb_prop in Hwf. destruct Hwf as [Hwf Hwe]. apply andb_prop in Hwf. destruct Hwf as [Hok Hwk].
   apply andb_prop in He. destruct He as [He He3]. apply andb_prop in He. destruct He as [He1 He2].
   apply andb_prop in Hpm. destruct Hpm as [Hpm Hp3]. apply andb_prop in Hpm. destruct Hpm as [Hp1 Hp2].
@@ -782,31 +805,35 @@ Proof.
   - right. cbn [Model.goa_viol Model.spec_viol]. rewrite (kws_goa_eq vl He1).
     apply app_nil_iff; [tauto|]. apply flat_map_nil_iff. intros kv Hx.
     apply app_nil_iff.
-    + destruct (IHk (map_ctx c k) false (fst kv) (p ++ [PKey]) (eq_trans (map_ctx_ignreq c k) Hi) Hwk He2 Hp2) as [[Hf _]|H]; [discriminate|exact H].
-    + destruct (IHe (map_ctx c e) false (snd kv) (p ++ [PVal]) (eq_trans (map_ctx_ignreq c e) Hi) Hwe He3 Hp3) as [[Hf _]|H]; [discriminate|exact H].
+    + destruct (IHk (map_ctx c k) false (fst kv) (p ++ [PKey]) (eq_trans (map_ctx_ignreq c k) Hi) HPk Hwk He2 Hp2) as [[Hf _]|H]; [discriminate|exact H].
+    + destruct (IHe (map_ctx c e) false (snd kv) (p ++ [PVal]) (eq_trans (map_ctx_ignreq c e) Hi) HPe Hwe He3 Hp3) as [[Hf _]|H]; [discriminate|exact H].
 Qed.
 
 Lemma Irel_user id : Irel (AUser id).
 Proof.
-  intros c rp v p _ _ _ _. right.
+  intros c rp v p _ [Hn|HP] _ _ _; [discriminate|]. right.
   destruct v; cbn [Model.goa_viol Model.spec_viol]; try tauto;
-    (destruct (has_validations E c id) eqn:Eh; [apply Hcall; discriminate|]; rewrite (Helide c id _ Eh); tauto).
+    (destruct (has_validations E c id) eqn:Eh; [apply Hcall; discriminate|]; rewrite (Helide c id _ HP Eh); tauto).
 Qed.
 
 Lemma Irel_fields c p fs : c_ignreq c = false ->
   Forall (fun f => Irel (snd f)) fs ->
+  (forallb (fun f => no_user (snd f)) fs = true \/ Pc c) ->
   forallb (fun f => wf_att E (snd f)) fs = true ->
   forallb (fun f => excl_ok E (snd f)) fs = true ->
   forallb (fun f => match f with (_, r, fa) => pm_ok r fa end) fs = true ->
   forall l, (reqs_goa c p fs l = [] /\ fields_goa fmt_ok pat_ok E callG c p fs l = []) <->
             (reqs_spec p fs l = [] /\ fields_spec p fs l = []).
 Proof.
-  intros Hi HI. induction HI as [|[[n r] fa] fs Hfa _ IH]; intros Hwf He Hpm l; [tauto|].
-  cbn [forallb snd] in *. apply andb_prop in Hwf. destruct Hwf as [Hwf1 Hwf2].
+  intros Hi HI. induction HI as [|[[n r] fa] fs Hfa _ IH]; intros HP Hwf He Hpm l; [tauto|].
+  cbn [forallb snd] in *.
+  assert (HP1 : no_user fa = true \/ Pc c) by (destruct HP as [Hn|Hc]; [left; now apply andb_prop in Hn|now right]).
+  assert (HP2 : forallb (fun f => no_user (snd f)) fs = true \/ Pc c) by (destruct HP as [Hn|Hc]; [left; now apply andb_prop in Hn|now right]).
+  apply andb_prop in Hwf. destruct Hwf as [Hwf1 Hwf2].
   apply andb_prop in He. destruct He as [He1 He2]. apply andb_prop in Hpm. destruct Hpm as [Hp1 Hp2].
   destruct l as [|x l]; [tauto|]. cbn [reqs_goa fields_goa reqs_spec fields_spec]. rewrite Hi. cbn [andb negb]. rewrite andb_true_r.
-  specialize (IH Hwf2 He2 Hp2 l).
-  destruct (Hfa c r x (p ++ [PField n]) Hi Hwf1 He1 Hp1) as [[-> ->]|Hx].
+  specialize (IH HP2 Hwf2 He2 Hp2 l).
+  destruct (Hfa c r x (p ++ [PField n]) Hi HP1 Hwf1 He1 Hp1) as [[-> ->]|Hx].
   - cbn [is_null andb]. split; intros [H _]; discriminate.
   - split; intros [H1 H2]; apply app_eq_nil in H1; apply app_eq_nil in H2; destruct H1 as [H1 H1']; destruct H2 as [H2 H2'].
     + destruct IH as [IH _]. destruct (IH (conj H1' H2')) as [A B]. rewrite H1, A, B. apply Hx in H2. now rewrite H2.
@@ -815,10 +842,10 @@ Qed.
 
 Lemma Irel_obj fs : Forall (fun f => Irel (snd f)) fs -> Irel (AObject fs).
 Proof.
-  intros HI c rp v p Hi Hwf He Hpm. right. cbn [wf_att excl_ok pm_ok] in *.
+  intros HI c rp v p Hi HP Hwf He Hpm. right. cbn [wf_att excl_ok pm_ok no_user] in *.
   destruct v; try (cbn [Model.goa_viol Model.spec_viol]; tauto).
   rewrite goa_viol_obj, spec_viol_obj.
-  pose proof (Irel_fields c p fs Hi HI Hwf He Hpm l) as H.
+  pose proof (Irel_fields c p fs Hi HI HP Hwf He Hpm l) as H.
   split; intro Hn; apply app_eq_nil in Hn; [apply H in Hn|apply H in Hn]; destruct Hn as [-> ->]; reflexivity.
 Qed.
 
@@ -834,6 +861,257 @@ Proof.
 Qed.
 End SpecRel.
 
+(* ---------------------------------------------------------------- hasValidations = false is sound *)
+(* In a Pointer context, when the walk of codegen.hasValidations answers false, nothing
+   reachable from the user type can be violated: the Validate call that goa does not emit
+   would have returned nothing. The set of types the walk has seen is closed (every type in
+   it has a body that is quiet up to types of the set), and the bound hv_fuel on the number
+   of nested entries is never reached. *)
+Section Quiet.
+Variable fmt_ok pat_ok : nat -> str -> bool.
+Variable E : env.
+Variable c : ctx.
+Hypothesis Hptr : c_ptr c = true.
+
+Fixpoint quiet (S : list nat) (a : att) {struct a} : Prop :=
+  match a with
+  | APrim vl _ _ => vl_empty vl = true
+  | AAlias id => vl_empty (snd (alias_def E id)) = true
+  | AArray vl e => vl_empty vl = true /\ quiet S e
+  | AMap vl k e => vl_empty vl = true /\ quiet S k /\ quiet S e
+  | AObject fs =>
+      existsb (fun f : nat * bool * att => match f with (_, r, _) => r end) fs = false /\
+      (fix all (fs : list (nat * bool * att)) : Prop :=
+         match fs with [] => True | f :: r => quiet S (snd f) /\ all r end) fs
+  | AUser id => In id S
+  end.
+
+Lemma quiet_obj S fs : quiet S (AObject fs) <->
+  existsb (fun f : nat * bool * att => match f with (_, r, _) => r end) fs = false /\ Forall (fun f => quiet S (snd f)) fs.
+Proof.
+  cbn [quiet]. split; intros [H1 H2]; (split; [exact H1|]); clear H1.
+  - induction fs as [|f fs IH]; [constructor|]. destruct H2 as [Ha Hb]. constructor; [exact Ha|now apply IH].
+  - induction H2 as [|f fs Ha _ IH]; [exact I|]. split; assumption.
+Qed.
+
+Lemma quiet_mono S S' a : incl S S' -> quiet S a -> quiet S' a.
+Proof.
+  intro Hi. induction a as [vl def pr|id|vl e IHe|vl k e IHk IHe|fs IH|id] using att_ind'; intro H.
+  - exact H.
+  - exact H.
+  - destruct H as [H1 H2]. split; [exact H1|now apply IHe].
+  - destruct H as (H1 & H2 & H3). split; [exact H1|split; [now apply IHk|now apply IHe]].
+  - apply quiet_obj in H. apply quiet_obj. destruct H as [H1 H2]. split; [exact H1|].
+    clear H1. induction IH as [|f fs Hf _ IH']; [constructor|]. inversion H2; subst. constructor; [now apply Hf|now apply IH'].
+  - now apply Hi.
+Qed.
+
+(* seen' extends seen, and every type added has a body that is quiet up to seen' *)
+Definition seen_ext (s s' : list nat) : Prop :=
+  incl s s' /\ forall id, In id s' -> In id s \/ quiet s' (user_body E id).
+
+Lemma seen_ext_refl s : seen_ext s s.
+Proof. split; [apply incl_refl|intros id H; now left]. Qed.
+
+Lemma seen_ext_trans s1 s2 s3 : seen_ext s1 s2 -> seen_ext s2 s3 -> seen_ext s1 s3.
+Proof.
+  intros [I1 C1] [I2 C2]. split; [eapply incl_tran; eassumption|]. intros id H.
+  destruct (C2 id H) as [H2|H2]; [|now right]. destruct (C1 id H2) as [H1|H1]; [now left|right].
+  eapply quiet_mono; eassumption.
+Qed.
+
+Lemma existsb_eqb_in id l : existsb (Nat.eqb id) l = true <-> In id l.
+Proof.
+  rewrite existsb_exists. split.
+  - intros (x & Hx & He). apply Nat.eqb_eq in He. now subst.
+  - intro H. exists id. split; [exact H|apply Nat.eqb_refl].
+Qed.
+
+Section Att.
+Variable visit : list nat -> nat -> bool * list nat.
+Variable seen0 : list nat.
+Hypothesis Hvisit : forall s id s', incl seen0 s -> ~ In id s -> visit (id :: s) id = (false, s') ->
+  seen_ext (id :: s) s' /\ quiet s' (user_body E id).
+
+Fixpoint hv_flds (fs : list (nat * bool * att)) (seen : list nat) : bool * list nat :=
+  match fs with
+  | [] => (false, seen)
+  | f :: r => let '(b, s1) := hv_att E c visit seen (snd f) in if b then (true, s1) else hv_flds r s1
+  end.
+
+Lemma hv_att_obj seen fs : hv_att E c visit seen (AObject fs) =
+  if existsb (fun f : nat * bool * att => match f with (_, r, _) => r end) fs then (true, seen) else hv_flds fs seen.
+Proof.
+  cbn [hv_att]. rewrite Hptr. destruct (existsb _ fs); [reflexivity|].
+  revert seen. induction fs as [|[[n r] fa] fs IH]; intro seen; [reflexivity|].
+  cbn [hv_flds snd]. destruct (hv_att E c visit seen fa) as [b s1]. destruct b; [reflexivity|apply IH].
+Qed.
+
+Definition Hsound (a : att) : Prop :=
+  forall seen seen', incl seen0 seen -> hv_att E c visit seen a = (false, seen') -> seen_ext seen seen' /\ quiet seen' a.
+
+Lemma hv_att_sound a : Hsound a.
+Proof.
+  induction a as [vl def pr|id|vl e IHe|vl k e IHk IHe|fs IH|id] using att_ind'; intros seen seen' Hi H.
+  - cbn [hv_att] in H. injection H as Hv <-. apply negb_false_iff in Hv. split; [apply seen_ext_refl|exact Hv].
+  - cbn [hv_att] in H. injection H as Hv <-. apply negb_false_iff in Hv. split; [apply seen_ext_refl|exact Hv].
+  - cbn [hv_att] in H. destruct (vl_empty vl) eqn:Ev; cbn [negb] in H; [|discriminate].
+    destruct (IHe seen seen' Hi H) as [HQ Hq]. split; [exact HQ|]. cbn [quiet]. now split.
+  - cbn [hv_att] in H. destruct (vl_empty vl) eqn:Ev; cbn [negb] in H; [|discriminate].
+    destruct (hv_att E c visit seen k) as [b s1] eqn:Ek. destruct b; [discriminate|].
+    destruct (IHk seen s1 Hi Ek) as [HQ1 Hq1].
+    assert (Hi1 : incl seen0 s1) by (eapply incl_tran; [exact Hi|exact (proj1 HQ1)]).
+    destruct (IHe s1 seen' Hi1 H) as [HQ2 Hq2]. split; [eapply seen_ext_trans; eassumption|].
+    cbn [quiet]. split; [exact Ev|split; [|exact Hq2]]. eapply quiet_mono; [exact (proj1 HQ2)|exact Hq1].
+  - rewrite hv_att_obj in H. destruct (existsb _ fs) eqn:Ex; [discriminate|].
+    assert (HF : seen_ext seen seen' /\ Forall (fun f => quiet seen' (snd f)) fs).
+    { clear Ex. revert seen seen' Hi H. induction IH as [|f fs Hf _ IH']; intros seen seen' Hi H.
+      - cbn [hv_flds] in H. injection H as <-. split; [apply seen_ext_refl|constructor].
+      - cbn [hv_flds] in H. destruct (hv_att E c visit seen (snd f)) as [b s1] eqn:Ef. destruct b; [discriminate|].
+        destruct (Hf seen s1 Hi Ef) as [HQ1 Hq1].
+        assert (Hi1 : incl seen0 s1) by (eapply incl_tran; [exact Hi|exact (proj1 HQ1)]).
+        destruct (IH' s1 seen' Hi1 H) as [HQ2 Hq2]. split; [eapply seen_ext_trans; eassumption|].
+        constructor; [|exact Hq2]. eapply quiet_mono; [exact (proj1 HQ2)|exact Hq1]. }
+    destruct HF as [HQ HF]. split; [exact HQ|]. apply quiet_obj. now split.
+  - cbn [hv_att] in H. destruct (existsb (Nat.eqb id) seen) eqn:Ex.
+    + injection H as <-. split; [apply seen_ext_refl|]. cbn [quiet]. now apply existsb_eqb_in.
+    + assert (Hn : ~ In id seen) by (intro Hin; apply existsb_eqb_in in Hin; congruence).
+      destruct (Hvisit seen id seen' Hi Hn H) as [[HI HC] Hq]. split.
+      * split; [intros x Hx; apply HI; now right|]. intros x Hx. destruct (HC x Hx) as [[<-|Hs]|Hr]; [now right|now left|now right].
+      * cbn [quiet]. apply HI. now left.
+Qed.
+End Att.
+
+(* user types not yet seen among the declared ones: the measure that bounds the nesting *)
+Definition unseen (s : list nat) : nat :=
+  length (filter (fun ua : nat * att => negb (existsb (Nat.eqb (fst ua)) s)) (e_users E)).
+
+Lemma filter_len_le {A} (f g : A -> bool) l :
+  (forall x, In x l -> f x = true -> g x = true) -> length (filter f l) <= length (filter g l).
+Proof.
+  induction l as [|a l IH]; intro H; [apply le_n|]. cbn [filter].
+  assert (IH' : length (filter f l) <= length (filter g l)) by (apply IH; intros x Hx; apply H; now right).
+  destruct (f a) eqn:Ef.
+  - rewrite (H a (or_introl eq_refl) Ef). cbn [length]. lia.
+  - destruct (g a); cbn [length]; lia.
+Qed.
+
+Lemma filter_len_lt {A} (f g : A -> bool) l y :
+  (forall x, In x l -> f x = true -> g x = true) -> In y l -> f y = false -> g y = true ->
+  length (filter f l) < length (filter g l).
+Proof.
+  induction l as [|a l IH]; intros H Hy Hf Hg; [destruct Hy|]. cbn [filter].
+  assert (Hle : length (filter f l) <= length (filter g l)) by (apply filter_len_le; intros x Hx; apply H; now right).
+  destruct Hy as [->|Hy].
+  - rewrite Hf, Hg. cbn [length]. lia.
+  - assert (IH' : length (filter f l) < length (filter g l)) by (apply IH; try assumption; intros x Hx; apply H; now right).
+    destruct (f a) eqn:Ef.
+    + rewrite (H a (or_introl eq_refl) Ef). cbn [length]. lia.
+    + destruct (g a); cbn [length]; lia.
+Qed.
+
+Lemma filter_len_all {A} (f : A -> bool) l : length (filter f l) <= length l.
+Proof. induction l as [|a l IH]; [apply le_n|]. cbn [filter]. destruct (f a); cbn [length]; lia. Qed.
+
+Lemma unseen_mono s s' : incl s s' -> unseen s' <= unseen s.
+Proof.
+  intro Hi. apply filter_len_le. intros x _ Hx. apply negb_true_iff in Hx. apply negb_true_iff.
+  destruct (existsb (Nat.eqb (fst x)) s) eqn:Ex; [|reflexivity].
+  apply existsb_eqb_in in Ex. apply Hi in Ex. apply existsb_eqb_in in Ex. congruence.
+Qed.
+
+Lemma unseen_dec s id a : assoc (e_users E) id = Some a -> ~ In id s -> unseen (id :: s) < unseen s.
+Proof.
+  intros Ha Hn. apply (filter_len_lt _ _ (e_users E) (id, a)).
+  - intros x _ Hx. apply negb_true_iff in Hx. apply negb_true_iff.
+    destruct (existsb (Nat.eqb (fst x)) s) eqn:Ex; [|reflexivity].
+    apply existsb_eqb_in in Ex. assert (In (fst x) (id :: s)) by now right. apply existsb_eqb_in in H. congruence.
+  - now apply assoc_in.
+  - cbn [fst existsb]. now rewrite Nat.eqb_refl.
+  - cbn [fst]. apply negb_true_iff. destruct (existsb (Nat.eqb id) s) eqn:Ex; [|reflexivity].
+    apply existsb_eqb_in in Ex. contradiction.
+Qed.
+
+Definition fuel_ok (fuel : nat) (s : list nat) (id : nat) : Prop :=
+  unseen s + 2 <= fuel \/ (assoc (e_users E) id = None /\ 1 <= fuel).
+
+Lemma hv_user_sound : forall fuel s id s', fuel_ok fuel s id ->
+  hv_user E c fuel s id = (false, s') -> seen_ext s s' /\ quiet s' (user_body E id).
+Proof.
+  induction fuel as [|f IH]; intros s id s' Hf H.
+  - destruct Hf as [Hf|[_ Hf]]; lia.
+  - cbn [hv_user] in H. destruct (assoc (e_users E) id) as [a|] eqn:Ea.
+    + destruct Hf as [Hf|[Hf _]]; [|congruence].
+      refine (hv_att_sound (hv_user E c f) s _ (user_body E id) s s' (incl_refl _) H).
+      intros s1 id1 s1' Hi Hn Hv. apply (IH (id1 :: s1) id1 s1'); [|exact Hv].
+      pose proof (unseen_mono s s1 Hi) as Hm.
+      destruct (assoc (e_users E) id1) as [a1|] eqn:Ea1.
+      * left. pose proof (unseen_dec s1 id1 a1 Ea1 Hn). lia.
+      * right. split; [exact Ea1|lia].
+    + unfold user_body in *. rewrite Ea in *. rewrite hv_att_obj in H. cbn in H. injection H as <-. split; [apply seen_ext_refl|].
+      cbn. split; [reflexivity|exact I].
+Qed.
+
+(* the walk answers false only when the user type sits in a closed set of quiet types *)
+Lemma hv_closed id : has_validations E c id = false ->
+  exists S, In id S /\ forall x, In x S -> quiet S (user_body E x).
+Proof.
+  unfold has_validations. destruct (hv_user E c (hv_fuel E) [id] id) as [b S] eqn:Eh. cbn [fst]. intros ->.
+  assert (Hf : fuel_ok (hv_fuel E) [id] id).
+  { left. unfold hv_fuel, unseen. pose proof (filter_len_all (fun ua : nat * att => negb (existsb (Nat.eqb (fst ua)) [id])) (e_users E)). lia. }
+  destruct (hv_user_sound _ _ _ _ Hf Eh) as [[HI HC] Hq]. exists S. split; [apply HI; now left|].
+  intros x Hx. destruct (HC x Hx) as [[<-|[]]|Hr]; assumption.
+Qed.
+
+Lemma flat_map_all_nil {A B} (f : A -> list B) l : (forall x, In x l -> f x = []) -> flat_map f l = [].
+Proof.
+  induction l as [|a l IH]; intro H; [reflexivity|]. cbn [flat_map]. rewrite (H a (or_introl eq_refl)). apply IH. intros x Hx. apply H. now right.
+Qed.
+
+Lemma vl_empty_kws vl : vl_empty vl = true -> kws_of vl = [].
+Proof. unfold vl_empty. destruct (kws_of vl); [reflexivity|discriminate]. Qed.
+
+Section QuietSpec.
+Variable S : list nat.
+Variable call : nat -> value -> list viol.
+Hypothesis Hcall0 : forall id x, In id S -> call id x = [].
+
+Lemma quiet_spec a : quiet S a -> forall v p, spec_viol fmt_ok pat_ok E call a v p = [].
+Proof.
+  induction a as [vl def pr|id|vl e IHe|vl k e IHk IHe|fs IH|id] using att_ind'; intros Hq v p.
+  - cbn [quiet] in Hq. destruct v; cbn [Model.spec_viol]; try reflexivity; now rewrite (vl_empty_kws _ Hq).
+  - cbn [quiet] in Hq. unfold alias_vl. destruct v; cbn [Model.spec_viol]; try reflexivity; unfold alias_vl; now rewrite (vl_empty_kws _ Hq).
+  - destruct Hq as [H1 H2]. destruct v; cbn [Model.spec_viol]; try reflexivity; rewrite (vl_empty_kws _ H1); cbn [kw_viols flat_map app]; try reflexivity.
+    apply flat_map_all_nil. intros x _. now apply IHe.
+  - destruct Hq as (H1 & H2 & H3). destruct v; cbn [Model.spec_viol]; try reflexivity; rewrite (vl_empty_kws _ H1); cbn [kw_viols flat_map app]; try reflexivity.
+    apply flat_map_all_nil. intros kv _. rewrite (IHk H2), (IHe H3). reflexivity.
+  - apply quiet_obj in Hq. destruct Hq as [Hr Hf]. destruct v; try (cbn [Model.spec_viol]; reflexivity).
+    rewrite (spec_viol_obj fmt_ok pat_ok E call).
+    assert (Hreq : forall l, reqs_spec p fs l = []).
+    { clear Hf IH. induction fs as [|[[n r] fa] fs IH]; intro l0; [reflexivity|]. cbn [existsb] in Hr. apply orb_false_iff in Hr. destruct Hr as [-> Hr].
+      destruct l0 as [|x l0]; [reflexivity|]. cbn [reqs_spec andb app]. now apply IH. }
+    assert (Hfld : forall l, fields_spec fmt_ok pat_ok E call p fs l = []).
+    { clear Hr Hreq. induction IH as [|[[n r] fa] fs Ha _ IH']; intro l0; [reflexivity|]. inversion Hf; subst.
+      destruct l0 as [|x l0]; [reflexivity|]. cbn [fields_spec]. cbn [snd] in *. rewrite (Ha H1). cbn [app]. now apply IH'. }
+    now rewrite Hreq, Hfld.
+  - cbn [quiet] in Hq. destruct v; cbn [Model.spec_viol]; try reflexivity; now apply Hcall0.
+Qed.
+End QuietSpec.
+
+Lemma closed_spec S : (forall x, In x S -> quiet S (user_body E x)) ->
+  forall n id x, In id S -> spec_user fmt_ok pat_ok E n id x = [].
+Proof.
+  intros Hc. induction n as [|n IH]; intros id x Hid; [reflexivity|]. cbn [spec_user].
+  apply (quiet_spec S (spec_user fmt_ok pat_ok E n) IH). now apply Hc.
+Qed.
+
+(* every Validate call goa elides in a Pointer context is vacuous *)
+Lemma elide_vacuous id n x : has_validations E c id = false -> spec_user fmt_ok pat_ok E n id x = [].
+Proof.
+  intro H. destruct (hv_closed id H) as (S & Hid & Hc). now apply (closed_spec S Hc).
+Qed.
+End Quiet.
+
 Section SpecTop.
 Variable fmt_ok pat_ok : nat -> str -> bool.
 Variable E : env.
@@ -842,7 +1120,22 @@ Hypothesis HwfE : wf_env E = true.
 Hypothesis HexE : env_excl_ok E = true.
 Hypothesis HpmE : env_pm_ok E = true.
 Hypothesis Hfc : c_ignreq fc = false.
-Hypothesis Helide : forall c id n x, has_validations E c id = false -> spec_user fmt_ok pat_ok E n id x = [].
+(* the map case of recurseValidationCode clears Pointer for primitive keys / elements only, and
+   Validate<T> functions are generated for a Pointer layout (server request bodies, client
+   response bodies): user types are always met in the context they were entered with *)
+Hypothesis Hmode : map_ctx_mode = MapClearPrimOnly.
+Hypothesis Hfcp : c_ptr fc = true.
+
+Definition Pptr (c : ctx) : Prop := c_ptr c = true.
+
+Lemma Pptr_elem c e : Pptr c -> is_prim e = false -> Pptr (elem_ctx c e).
+Proof. unfold Pptr, elem_ctx. intros Hc He. rewrite He, andb_false_r. exact Hc. Qed.
+
+Lemma Pptr_map c a : Pptr c -> is_prim a = false -> Pptr (map_ctx c a).
+Proof. unfold Pptr, map_ctx. rewrite Hmode. intros Hc Ha. destruct a; try exact Hc; discriminate. Qed.
+
+Lemma Helide c id n x : Pptr c -> has_validations E c id = false -> spec_user fmt_ok pat_ok E n id x = [].
+Proof. intros Hc H. exact (elide_vacuous fmt_ok pat_ok E c Hc id n x H). Qed.
 
 Lemma env_body_ok id : excl_ok E (user_body E id) = true /\ pm_ok true (user_body E id) = true.
 Proof.
@@ -856,17 +1149,18 @@ Lemma goa_user_iff_spec : forall n id x, x <> VNull ->
 Proof.
   induction n as [|n IH]; intros id x Hx; [cbn; tauto|].
   cbn [goa_user spec_user]. destruct (wf_user_body E id HwfE) as [Hwf _]. destruct (env_body_ok id) as [He Hp].
-  destruct (Irel_all fmt_ok pat_ok E (goa_user fmt_ok pat_ok E fc n) (spec_user fmt_ok pat_ok E n) IH
-              (fun c id x => Helide c id n x) (user_body E id) fc true x [] Hfc Hwf He Hp) as [[_ Hn]|H]; [congruence|exact H].
+  destruct (Irel_all fmt_ok pat_ok E (goa_user fmt_ok pat_ok E fc n) (spec_user fmt_ok pat_ok E n) IH Pptr
+              (fun c id x => Helide c id n x) Pptr_elem Pptr_map (user_body E id) fc true x [] Hfc (or_intror Hfcp) Hwf He Hp) as [[_ Hn]|H]; [congruence|exact H].
 Qed.
 
 Theorem goa_iff_spec n c rp a v :
-  c_ignreq c = false -> wf_att E a = true -> excl_ok E a = true -> pm_ok rp a = true -> (rp = true -> v <> VNull) ->
+  c_ignreq c = false -> (no_user a = true \/ c_ptr c = true) ->
+  wf_att E a = true -> excl_ok E a = true -> pm_ok rp a = true -> (rp = true -> v <> VNull) ->
   (violations_goa fmt_ok pat_ok E fc n c a v = [] <-> violations fmt_ok pat_ok E n a v = []).
 Proof.
-  intros Hc Hwf He Hp Hr. unfold violations_goa, violations.
-  destruct (Irel_all fmt_ok pat_ok E (goa_user fmt_ok pat_ok E fc n) (spec_user fmt_ok pat_ok E n) (goa_user_iff_spec n)
-              (fun c id x => Helide c id n x) a c rp v [] Hc Hwf He Hp) as [[Hrp Hn]|H]; [|exact H].
+  intros Hc HP Hwf He Hp Hr. unfold violations_goa, violations.
+  destruct (Irel_all fmt_ok pat_ok E (goa_user fmt_ok pat_ok E fc n) (spec_user fmt_ok pat_ok E n) (goa_user_iff_spec n) Pptr
+              (fun c id x => Helide c id n x) Pptr_elem Pptr_map a c rp v [] Hc HP Hwf He Hp) as [[Hrp Hn]|H]; [|exact H].
   exfalso. now apply Hr.
 Qed.
 End SpecTop.
